@@ -120,6 +120,31 @@ func init() {
 		Mutant{Prop: "C09", Name: "r3-benign-case-operands-swapped", File: osc, Benign: true,
 			Old: "\tcase objectSet.IsSpecPaused() && phasesArePaused:\n\t\t// Everything is paused!",
 			New: "\tcase phasesArePaused && objectSet.IsSpecPaused():\n\t\t// Everything is paused!"},
+		// the three-way case list written as one comparison of the two booleans (`a && !b || !a && b` is
+		// `a != b`): Paused=True under "spec and phases agree" + "spec is paused"
+		Mutant{Prop: "C09", Name: "r3-benign-disagreement-as-comparison", File: osc, Benign: true,
+			Old: "\tcase unknown ||\n\t\tobjectSet.IsSpecPaused() && !phasesArePaused ||\n\t\t!objectSet.IsSpecPaused() && phasesArePaused:",
+			New: "\tcase unknown || objectSet.IsSpecPaused() != phasesArePaused:",
+			More: []Edit{
+				{File: osc, Old: "\tcase objectSet.IsSpecPaused() && phasesArePaused:\n\t\t// Everything is paused!", New: "\tcase objectSet.IsSpecPaused():\n\t\t// Everything is paused!"},
+				{File: osc, Old: "\tcase !objectSet.IsSpecPaused() && !phasesArePaused:", New: "\tdefault:"},
+			}},
+		Mutant{Prop: "C09", Name: "r3-comparison-inverted-paused-true-while-phases-run", File: osc,
+			Old: "\tcase unknown ||\n\t\tobjectSet.IsSpecPaused() && !phasesArePaused ||\n\t\t!objectSet.IsSpecPaused() && phasesArePaused:",
+			New: "\tcase unknown || objectSet.IsSpecPaused() == phasesArePaused:",
+			More: []Edit{
+				{File: osc, Old: "\tcase objectSet.IsSpecPaused() && phasesArePaused:\n\t\t// Everything is paused!", New: "\tcase objectSet.IsSpecPaused():\n\t\t// Everything is paused!"},
+				{File: osc, Old: "\tcase !objectSet.IsSpecPaused() && !phasesArePaused:", New: "\tdefault:"},
+			},
+			Expect: []string{"C09.R3@(*internal/controllers/objectsets.GenericObjectSetController).reportPausedCondition#Paused=True"}},
+		Mutant{Prop: "C09", Name: "r3-comparison-dropped-paused-true-on-spec-alone", File: osc,
+			Old: "\tcase unknown ||\n\t\tobjectSet.IsSpecPaused() && !phasesArePaused ||\n\t\t!objectSet.IsSpecPaused() && phasesArePaused:",
+			New: "\tcase unknown:",
+			More: []Edit{
+				{File: osc, Old: "\tcase objectSet.IsSpecPaused() && phasesArePaused:\n\t\t// Everything is paused!", New: "\tcase objectSet.IsSpecPaused():\n\t\t// Everything is paused!"},
+				{File: osc, Old: "\tcase !objectSet.IsSpecPaused() && !phasesArePaused:", New: "\tcase !phasesArePaused:"},
+			},
+			Expect: []string{"C09.R3@(*internal/controllers/objectsets.GenericObjectSetController).reportPausedCondition#Paused=True"}},
 
 		// ---- R4
 		Mutant{Prop: "C09", Name: "r4-subreconcilers-run-while-paused", File: odr,
